@@ -60,6 +60,8 @@ def build_registry(mods):
     reg.models[common.forall_range] = _models.q_forall
     reg.models[common.exists_range] = _models.q_exists
     reg.models[common.is_opaque] = _models.m_is_opaque
+    from . import charclass as _charclass
+    reg.models[common.all_chars] = _charclass.m_all_chars
     reg.link()
     # loop specs keyed by (file, ast-qualname, ordinal)
     for (q, ordinal), ls in reg.loops.items():
